@@ -102,7 +102,10 @@ class Ctx(object):
         v = st.dom(self.field(st, base_off, 'valid', 1))
         macok = all(st.same(mem.load_bytes(st, T, ('add', base_off, C(self.foff('mapper_mac') + j)), 1)[0], ('in', 'MAC', j))
                     or compared_equal(st, ('add', base_off, C(self.foff('mapper_mac') + j)), ('in', 'MAC', j)) for j in range(6))
-        genok = st.same(self.field(st, base_off, 'generation', 2), GEN) or self.gen_compared(st, base_off)
+        gf = self.field(st, base_off, 'generation', 2)
+        from ..terms import mk_byte
+        genok = st.same(gf, GEN) or self.gen_compared(st, base_off) or \
+            all(st.canon(mk_byte(gf, k_)) == st.canon(mk_byte(GEN, k_)) or st.same(mk_byte(gf, k_), mk_byte(GEN, k_)) for k_ in range(2))
         return v.lo >= 1 and macok and genok
 
     def gen_compared(self, st, base_off):
@@ -349,6 +352,79 @@ def decide(rep, prog, cx=None):
 
 
 def check_find(rep, cx, rule):
+    """The lookup returns an entry only if it is valid and address + generation are equal, and NULL only if no entry is.
+    Decided without assumptions about the shape of the scan (direction, index or pointer walk, helper functions, how keys are
+    compared): the 16-slot loop is unrolled concretely; "NULL only if nothing matches" by one run per slot with that slot
+    holding the searched key.  If the unrolled run cannot be completed (a scan without early exit multiplies the paths), the
+    inductive-summary formulation below is used instead."""
+    try:
+        check_find_concrete(rep, cx, rule)
+        return
+    except AnalysisBroken as e:
+        rep.note('session_table_find: unrolled analysis not completed (%s); inductive formulation used' % e)
+    check_find_summarised(rep, cx, rule)
+
+
+def check_find_concrete(rep, cx, rule):
+    fnf = 'lltdResponder/lltdAutomata.c'
+    tp, mp, u16 = cx.ty('session_table *'), cx.ty('const uint8_t *'), cx.ty('unsigned short')
+    T0, M0 = ('ptr', 'T', ZERO), ('ptr', 'MAC', ZERO)
+    args = lambda st: [Val(tp, T0), Val(mp, M0), Val(u16, GEN), Val(u16, SEQ)]
+    results = []
+
+    def go(extra=None):
+        E = Engine(cx.prog, port=PortModel())
+        E.loop_info = {}
+        import lltdsa.absint as _ab
+
+        def setup(I, st):
+            t = mk_obj(st, 'T', cx.trec.size, kind='heap', default='sym', heap=True)
+            mk_obj(st, 'MAC', 6, kind='heap', default='sym')
+            if extra:
+                extra(st)
+            return args(st)
+        return run_entry(cx.prog, AUTOMATA_UNIT, 'session_table_find', setup, engine=E, name='session_table_find[unrolled]')
+    I, outs = go()
+    if I.loop_info:
+        raise AnalysisBroken('the scan was summarised, not unrolled')
+    fails = []
+    hit = miss = 0
+    for st, v in outs:
+        r = st.canon(v.t)
+        if r == ZERO:
+            miss += 1
+        elif r[0] == 'ptr' and r[1] == 'T' and is_const(st.canon(r[2])):
+            hit += 1
+            off = st.canon(r[2])[1] - cx.eoff
+            okidx = off >= 0 and off % cx.esz == 0 and off // cx.esz < cx.cap
+            fails.append((okidx, 'hit|index', 'returned pointer %s is not entries[k]' % short(r)))
+            if okidx:
+                fails.append((cx.key_matches(st, C(off + cx.eoff) if False else C(off + cx.eoff)), 'hit|key',
+                              'the lookup returns entry %d without having established valid && address equal && generation equal' % (off // cx.esz)))
+        else:
+            fails.append((False, 'ret', 'lookup returns %s' % short(r)))
+    fails.append((bool(hit and miss), 'paths', 'lookup has %d hit and %d miss outcomes' % (hit, miss)))
+    # NULL only if no entry matches: with slot i valid and holding the key, no path may return NULL
+    for i in range(cx.cap):
+        base = cx.eoff + i * cx.esz
+
+        def extra(st, base=base):
+            t = st.objs['T']
+            t.cells[((), base + cx.foff('valid'))] = (1, C(1))
+            for j in range(6):
+                t.cells[((), base + cx.foff('mapper_mac') + j)] = (1, ('in', 'MAC', j))
+            t.cells[((), base + cx.foff('generation'))] = (2, GEN)
+        I2, outs2 = go(extra)
+        nulls = [1 for st, v in outs2 if st.canon(v.t) == ZERO]
+        fails.append((not nulls, 'miss|slot%d' % i, 'with slot %d valid and holding the searched address and generation the lookup can still return NULL: it does not examine that slot (or rejects a matching entry)' % i))
+    for ob in I.obs.values():
+        if not ob.ok:
+            rep.fail(rule, '%s|%s' % (ob.fn, ob.kind), ob.msg, node=ob.node, function=ob.fn)
+    for ok, key, msg in fails:
+        rep.check(ok, rule, key, msg, function='session_table_find', file=fnf)
+
+
+def check_find_summarised(rep, cx, rule):
     """The lookup scans all slots and returns an entry only if it is valid and address + generation are equal."""
     fnf = 'lltdResponder/lltdAutomata.c'
     tp, mp, u16 = cx.ty('session_table *'), cx.ty('const uint8_t *'), cx.ty('unsigned short')
